@@ -10,6 +10,7 @@ from liquid.exceptions import LiquidSyntaxError
 from liquid.exceptions import LiquidTypeError
 from liquid.expression import Expression
 from liquid.limits import to_int
+from liquid.stringify import to_liquid_string
 from liquid.token import TOKEN_AND
 from liquid.token import TOKEN_BLANK
 from liquid.token import TOKEN_CONTAINS
@@ -646,7 +647,8 @@ def _contains(token: Token, left: object, right: object) -> bool:
     if not is_truthy(left) or not is_truthy(right):
         return False
     if isinstance(left, str):
-        return str(right) in left
+        # The text of the right operand as a template would print it, `true` not `True`.
+        return to_liquid_string(right, autoescape=False) in left
     if isinstance(left, (list, tuple)):
         # Liquid equality, where `true` is not equal to `1`.
         return any(_eq(item, right) for item in left)
